@@ -1,6 +1,6 @@
 SPECIFICATION MCSpec
 CONSTANTS
-  Slot = {1,2,3}
+  Slot = {1,2}
   NameIds = {1,2}
   FlagSet = {0,1,2,3,4,5,6,7}
   MaxUnique = 3
